@@ -19,6 +19,11 @@ def main():
         c19.regenerate_facts()
     except Exception as e:  # noqa: BLE001
         print("setup: C19 facts not regenerated:", e)
+    try:
+        from checks import c20
+        c20.regenerate()
+    except Exception as e:  # noqa: BLE001
+        print("setup: C20 access table not regenerated:", e)
     props = sorted(f[:-5] for f in os.listdir(os.path.join(pk.LEAN, "Pk", "Props")) if f.endswith(".lean"))
     good, log = pk.lake_build(["Pk", "pkmodel"] + ["Pk.Props.%s" % p for p in props], timeout=7200)
     print(log[-3000:])
